@@ -81,6 +81,9 @@ func (e *Env) livenessClass(s *State, v, d int, res string) string {
 	case strings.Contains(res, "neg_dec_coin"):
 		return "negative_share_total" // the asset's validator-share total drifted below zero (D13): issuance panics
 	case strings.Contains(res, "insufficient_funds"):
+		if e.Mon.ValueChanged {
+			return "pool_short_after_value_change" // D6: entitlements follow CURRENT token values
+		}
 		return "pool_short"
 	case strings.Contains(res, "div_zero"):
 		return "zero_token_validator"
@@ -343,4 +346,14 @@ func (e *Env) probeQueries(st *Step) {
 			st.pfail("C20", "delegation_query", "query of (%d,%d,%d) reports %s / %s", dl.Del, dl.Val, dl.Denom, r.Delegation.Balance, r.Delegation.Delegation.Shares)
 		}
 	}
+}
+
+// poolLarge: some reward balance of the pool is at least 1e15 base units
+func poolLarge(s *State) bool {
+	for _, r := range s.Bank {
+		if r.Acct == AccPool && r.Amt.Cmp(bigE15) >= 0 {
+			return true
+		}
+	}
+	return false
 }
